@@ -195,7 +195,8 @@ Definition body (g : glue) (c : cfg) (F GF : nat -> bool) (cs : cstate) (call : 
         match find_key key (auxs (obj_of cs k)) 0 with Some _ => if parses then (cs, BOk) else (cs, BFalse) | None => (cs, BFalse) end
       else (cs, BUB)
   | AWriteKey inv e => lift_step c F cs (OWriteKey k inv e)             (* :106-114 *)
-  | AAcc a =>                                                           (* :124-172: plain reads, nothing thrown *)
+  | AAcc a =>                                                           (* :125-199: plain reads, nothing thrown (reached only with
+                                                                           table->data != NULL when the glue checks it) *)
       match a with
       | AccNdim | AccTotal | AccCoeff => if live cs k then (cs, BOk) else (cs, BUB)
       | _ => if built (obj_of cs k) && has_extents (obj_of cs k) then (cs, BOk) else (cs, BUB)
@@ -254,10 +255,12 @@ Definition body (g : glue) (c : cfg) (F GF : nat -> bool) (cs : cstate) (call : 
 (* ---------------------------------------------------------------------------------------------- *)
 (** * The wrapper around the body *)
 
+(* RNaN: not-a-number handed to the caller — returned by a double-valued wrapper (CRNaN) or filled into the output buffer
+   of the void ndsplineeval_gradient (CRNaNFill) *)
 Inductive cres := RInt (n : nat) | RPtr (nonnull : bool) | RVal | RVoid | RNaN | Escaped (r : reason) | Crashed.
 
 Definition ret_of (x : cret) : cres :=
-  match x with CR0 => RInt 0 | CR1 => RInt 1 | CRNull => RPtr false | CRVoid => RVoid | CRNaNFill => RNaN | CRValue => RVal | CRNone => RVoid end.
+  match x with CR0 => RInt 0 | CR1 => RInt 1 | CRNull => RPtr false | CRVoid => RVoid | CRNaN => RNaN | CRNaNFill => RNaN | CRValue => RVal | CRNone => RVoid end.
 Definition ret_ok (g : glue) : cres :=
   match g_ok_ret g with
   | CRValue => if String.eqb (g_rtype g) "const char*" then RPtr true else if String.eqb (g_rtype g) "int" then RInt 1 else RVal
@@ -330,15 +333,25 @@ Definition all_shapes : list cargs :=
 Definition glue_protected (gt : list glue) (a : cargs) : bool := g_try (glue_of gt (fname a)) || negb (may_throw a).
 Definition catch_signals (g : glue) : bool :=
   negb (g_try g) || match g_catch_ret g with CR1 | CRNull | CRNaNFill => true | _ => false end.
+(* what the leading check hands back is the function's failure value where it has one (1 / NULL; tablesearchcenters: 0, the
+   value of searchcenters for a point outside the support) and otherwise the value the header documents for a handle
+   without a table: 0 for the counts (an empty table has none), NULL for the arrays, NaN for the double-valued accessors and
+   evaluators, NaN in the output buffer for the void gradient *)
 Definition check_signals (g : glue) : bool :=
-  match g_check_ret g with CR1 | CRNull | CRNone => true | CRVoid => String.eqb (g_rtype g) "void" | _ => false end.
-(* every pointer the body dereferences is tested first, for the functions that can report a failure (int / pointer result) *)
-Definition reports (g : glue) : bool := String.eqb (g_rtype g) "int" || String.eqb (g_rtype g) "const char*".
+  match g_check_ret g with
+  | CR1 | CRNone => true
+  | CRNull => String.eqb (g_rtype g) "const char*" || String.eqb (g_rtype g) "const double*" || String.eqb (g_rtype g) "const float*"
+  | CRVoid | CRNaNFill => String.eqb (g_rtype g) "void"
+  | CRNaN => String.eqb (g_rtype g) "double"
+  | CR0 => String.eqb (g_rtype g) "uint32_t" || String.eqb (g_rtype g) "uint64_t" || String.eqb (g_name g) "tablesearchcenters"
+  | CRValue => false
+  end.
+(* every handle / struct / string / result pointer the body dereferences is tested first — by EVERY wrapper (since F18_1 the
+   value-returning ones too) — and nothing is dereferenced before the check *)
 Definition null_checked (gt : list glue) (a : cargs) : bool :=
   let g := glue_of gt (fname a) in
-  negb (reports g) || String.eqb (g_name g) "tablesearchcenters"
-  || forallb (fun p => inb p (g_checked g) || negb (inb p ["table"; "table->data"; "buffer"; "buffer->data"; "path"; "key"; "result"; "value"; "data"]))
-             (derefs a) && forallb (fun p => negb (inb p (g_pre_deref g))) (g_params g).
+  forallb (fun p => inb p (g_checked g) || negb (inb p ["table"; "table->data"; "buffer"; "buffer->data"; "path"; "key"; "result"; "value"; "data"]))
+          (derefs a) && forallb (fun p => negb (inb p (g_pre_deref g))) (g_params g).
 Definition glue_ok (gt : list glue) : bool :=
   forallb (glue_protected gt) all_shapes && forallb catch_signals gt && forallb check_signals gt
   && String.eqb (g_member (glue_of gt "ndsparse_destroy")) "delete photospline::ndsparse"
@@ -400,5 +413,30 @@ Definition write_orig : glue :=
   mkGlue "writesplinefitstable" "int" ["path"; "table"] [] ["path"; "table"] CR1 false true CR1 CRNone "write_fits" ["path"] CR0.
 Definition permute_orig : glue :=
   mkGlue "splinetable_permute" "int" ["table"; "permutation"] [] [] CRNone false true CR1 CRNone "permuteDimensions" ["permutationv"] CR0.
+(* the value-returning wrappers as they were up to 07dbb30 (unchanged since a37ac82): no leading check at all *)
+Definition value_orig (n rt : string) (ps : list string) (m : string) (fwd : list string) : glue :=
+  mkGlue n rt ps [] [] CRNone false false CRNone CRNone m fwd CRValue.
+Definition accessors_orig : list glue :=
+  [value_orig "splinetable_ndim" "uint32_t" ["table"] "get_ndim" [];
+   value_orig "splinetable_order" "uint32_t" ["table"; "dim"] "get_order" ["dim"];
+   value_orig "splinetable_nknots" "uint64_t" ["table"; "dim"] "get_nknots" ["dim"];
+   value_orig "splinetable_knots" "const double*" ["table"; "dim"] "get_knots" ["dim"];
+   value_orig "splinetable_knot" "double" ["table"; "dim"; "knot"] "get_knot" ["dim"; "knot"];
+   value_orig "splinetable_lower_extent" "double" ["table"; "dim"] "lower_extent" ["dim"];
+   value_orig "splinetable_upper_extent" "double" ["table"; "dim"] "upper_extent" ["dim"];
+   value_orig "splinetable_period" "double" ["table"; "dim"] "get_period" ["dim"];
+   value_orig "splinetable_ncoeffs" "uint64_t" ["table"; "dim"] "get_ncoeffs" ["dim"];
+   value_orig "splinetable_total_ncoeffs" "uint64_t" ["table"] "get_ncoeffs" [];
+   value_orig "splinetable_stride" "uint64_t" ["table"; "dim"] "get_stride" ["dim"];
+   value_orig "splinetable_coefficients" "const float*" ["table"] "get_coefficients" [];
+   value_orig "tablesearchcenters" "int" ["table"; "x"; "centers"] "searchcenters" ["x"; "centers"];
+   value_orig "ndsplineeval" "double" ["table"; "x"; "centers"; "derivatives"] "ndsplineeval" ["x"; "centers"; "derivatives"];
+   value_orig "ndsplineeval_deriv" "double" ["table"; "x"; "centers"; "derivatives"] "ndsplineeval_deriv" ["x"; "centers"; "derivatives"]].
+(* ndsplineeval_gradient between 7998991 and 07dbb30: inside try/catch (NaN fill), the handle not tested *)
+Definition gradient_unchecked : glue :=
+  mkGlue "ndsplineeval_gradient" "void" ["table"; "x"; "centers"; "evaluates"] [] [] CRNone false true CRNaNFill CRNone "ndsplineeval_gradient" ["x"; "centers"; "evaluates"] CRVoid.
 (* the original versions override the current ones (glue_of returns the first match) *)
-Definition orig_over (gt : list glue) : list glue := [nd_destroy_orig; convolve_orig; gradient_orig; write_orig; permute_orig] ++ gt.
+Definition orig_over (gt : list glue) : list glue :=
+  [nd_destroy_orig; convolve_orig; gradient_orig; write_orig; permute_orig] ++ accessors_orig ++ gt.
+(* the tree as it was just before F18_1 (07dbb30): everything fixed except the value-returning wrappers *)
+Definition unchecked_over (gt : list glue) : list glue := gradient_unchecked :: accessors_orig ++ gt.
